@@ -102,6 +102,14 @@ def run(F, rep, tier, allfacts):
         okd = not eff and "RunProgram" in a
     rep.check(okd, "DEBUG-exit", "run_program:DebugEvent-arm-returns-immediately", where,
               "after recording the debug state run_program must return without receipts, finalisation or further execution")
+    # run_program is re-entered by resume(): it must not (re)initialise interpreter state itself
+    from fvlib.effects import ResetCoverage
+    rc = ResetCoverage(fe)
+    rs = sorted({fld for (_, fld, kind, _) in rc.direct(n)})
+    rep.rule("RESUME-idempotent", "run_program (re-entered on resume) performs no whole-field reset of interpreter state")
+    rep.check(not rs, "RESUME-idempotent", "run_program:no-field-reset", where,
+              "run_program resets interpreter field(s) %s; because resume() re-enters run_program this happens again after every debug event, "
+              "so a debugged run diverges from an undebugged one" % rs)
     n, f = F.find(r"^fuel_vm::interpreter::executors::debug::.*::resume$", ["fuel_vm"], one=True)
     rep.saw(n)
     cfg = CFG(f)
